@@ -3,6 +3,7 @@ import PGM.Driver.C12
 import PGM.Driver.C01
 import PGM.Model.RegionGraph
 import PGM.Model.FactorGraph
+import PGM.Model.RGCheck
 /-! driver handlers for the approximate marginal oracles (C16, C17, C18):
 `rg_build` (structure validation), `gbp`, `hps`, `lbp` (message passing on `Float`) -/
 open Lean
@@ -198,7 +199,15 @@ def handleHPSCert (req : Json) : Except String Json := do
   let primal := primalValue g pot total mu
   let lag := lagrangianBeliefs g pot total msgs
   pure (Json.mkObj [("dual", Codec.enc dual), ("primal", Codec.enc primal), ("gap", Codec.enc (dual - primal)),
-    ("lagr_err", Codec.enc (maxAbsDiff mu lag)), ("pf", Codec.enc (primalFeasibility g mu))])
+    ("lagr_err", Codec.enc (maxAbsDiff mu lag)), ("pf", Codec.enc (primalFeasibility g mu)),
+    -- the verified checker of the certificate's graph-level hypotheses (`Convex.graphCheck_sound`), on the implementation's own graph
+    ("graph_check", Json.bool (graphCheck dom g)),
+    -- layout of the potentials and of both directions of every message (`hps_certificate_checked_warm`)
+    ("layout_check", Json.bool (
+      g.regions.all (fun r => decide (pot r).WF && (pot r).dom == dom.project r) &&
+      g.regions.all (fun p => (look g.children p).all (fun c =>
+        decide (msgs.get (c, p)).WF && decide (msgs.get (p, c)).WF &&
+        (msgs.get (c, p)).dom == dom.project c && (msgs.get (p, c)).dom == dom.project c))))])
 
 def handleHPS (req : Json) : Except String Json := do
   let dom ← decDom (← req.getObjVal? "dom")
